@@ -11,7 +11,8 @@ from .. import terms as T
 
 ID = "C09"
 LEVEL = "exploration"
-RULE = ("valid streams (written by pyjelly and by the reference producer, delimited and single-frame) are parsed from: "
+RULE = ("valid streams (written by pyjelly and by the reference producer, delimited and single-frame, > 64 KiB ones, and "
+        "hand-framed ones whose first frame is exactly 10 / 11 / 12 / 127 / 128 / 130 bytes) are parsed from: "
         "BytesIO (baseline), a regular file, BufferedReader(file), gzip, a non-seekable RawIOBase double that dribbles by "
         "schedule (all-1, all-2, all-3, [1,1,k], [2,k], frame boundary +-1, random sizes >= 1), a BufferedReader around that "
         "double (what socket.makefile('rb') / an HTTP response is), and real os.pipe / socketpair sources fed by a "
@@ -155,6 +156,10 @@ def run_shard(ctx):
             if i % 40 == 1:
                 vs = big_stream(rng)          # > 64 KiB: read sizes that no small stream can expose
                 ctx.observe("big-streams(>64KiB)")
+            elif i % 8 == 3:
+                # first frame of exactly 10 (or 9..12, 127, 128) bytes: headers 0A 0A NN etc. under short reads
+                vs = workloads.crafted_header_stream(rng, rng.choice([10, 10, 10, 11, 12, 127, 128, 130]))
+                ctx.observe(f"crafted-first-frame-length:{vs['first_frame_len']}")
             else:
                 vs = workloads.valid_stream(rng, mode="generic", max_len=20)
             if vs is None:
